@@ -413,11 +413,13 @@ func (set *Set) remove(hosts ...*Host) {
 
 // MarkHostHealthy marks the given host as healthy.
 func (set *Set) MarkHostHealthy(host *Host) bool {
+	// NOTE: flip the flag with the lock held, otherwise concurrent marks of
+	// one host could leave the healthy hosts inconsistent with its flag.
+	set.Lock()
+	defer set.Unlock()
 	if !host.setHealthy() {
 		return false
 	}
-	set.Lock()
-	defer set.Unlock()
 	// the host must be the one in the set, not a stale instance with the same address.
 	if cur, ok := set.all[host.Addr]; !ok || cur != host {
 		return false
@@ -428,11 +430,13 @@ func (set *Set) MarkHostHealthy(host *Host) bool {
 
 // MarkHostUnhealthy marks the given host as unhealthy.
 func (set *Set) MarkHostUnhealthy(host *Host) bool {
+	// NOTE: flip the flag with the lock held, otherwise concurrent marks of
+	// one host could leave the healthy hosts inconsistent with its flag.
+	set.Lock()
+	defer set.Unlock()
 	if !host.setUnhealthy() {
 		return false
 	}
-	set.Lock()
-	defer set.Unlock()
 	// the host must be the one in the set, not a stale instance with the same address.
 	if cur, ok := set.all[host.Addr]; !ok || cur != host {
 		return false
